@@ -56,7 +56,52 @@ def run(F, ck, tier):
                           src=['F:CircuitBuilder.copy_constraints', 'F:CopyConstraint.pair'], ctx={'loop': ['F:CircuitBuilder.copy_constraints'], 'uncond': True}, whole=True,
                           why='every copy constraint is merged into the forest'))
     E.check('R02.6', dict(id='sigma.polys', fn='CircuitBuilder::sigma_vecs', crate='plonky2', kind='ret', src=['c:get_sigma_polys', 'c:wire_partition', 'p:k_is', 'p:subgroup'], why='sigma polynomials come from the partition'))
+    # R02.8 routable boundary
+    ck.rule('R02.8', 'Wire::is_routable holds exactly for columns below num_routed_wires (the columns that have a sigma polynomial): the comparison is normalised algebraically, so equivalent spellings pass')
+    routable_boundary(F, ck)
     ck.decided += ['each soundness-critical check of the native PLONK verifier exists and is fed by the right data', 'all four vanishing term groups enter the alpha combination in the three evaluators',
                    'selector filter applied', 'public-input hash wired to the PublicInputGate', 'copy-conflict refusal', 'sigma built from fully merged, compressed classes']
     ck.undecided += ['sufficiency of the constraint system', 'the adversarial-prover catalogue (behavioural)', 'per-gate constraint completeness (C07)']
     return 'Decides structural necessary conditions of C02 on the native PLONK verifier, the three vanishing evaluators, the gate filter, public-input binding, copy-class handling. Sufficiency of the constraint system is not decided.'
+
+
+def routable_boundary(F, ck):
+    from . import poly
+    c = [f for f in F.find('Wire::is_routable', crate='plonky2')]
+    if len(c) != 1 or c[0].body is None:
+        ck.ob('R02.8', 'anchor', False, 'ANCHOR-MISSING Wire::is_routable')
+        return
+    fn = c[0]
+    n = fn.body
+    while n.get('k') == 'Block' and not n['st'] and 'e' in n:
+        n = n['e']
+    neg = False
+    while n.get('k') == 'Un' and n.get('op') == 'Not':
+        neg = not neg
+        n = n['e']
+    loc = '%s:%d' % (fn.file, fn.line)
+    if n.get('k') != 'Bin' or n['op'] not in ('Lt', 'Le', 'Gt', 'Ge'):
+        ck.observe('R02.8 not applicable: Wire::is_routable is not a single comparison any more')
+        ck.ob('R02.8', 'routable.boundary', True, 'not a single comparison: not decided')
+        return
+    op = n['op']
+    if neg:
+        op = {'Lt': 'Ge', 'Le': 'Gt', 'Gt': 'Le', 'Ge': 'Lt'}[op]
+    E = poly.Ev(F)
+    try:
+        d = poly.add(E.ev(fn, n['l'], {}, 2), E.ev(fn, n['r'], {}, 2), -1)
+    except poly.Unknown as ex:
+        ck.observe('R02.8 not applicable: %s' % ex)
+        ck.ob('R02.8', 'routable.boundary', True, 'operands outside the polynomial normaliser: not decided')
+        return
+    # bring to the form  e < 0  (integers: e <= 0  <=>  e - 1 < 0)
+    if op in ('Gt', 'Ge'):
+        d = poly.add({}, d, -1)
+        op = 'Lt' if op == 'Gt' else 'Le'
+    if op == 'Le':
+        d = poly.add(d, poly.const(1), -1)
+    want = poly.add(poly.sym('Wire.column'), poly.sym('CircuitConfig.num_routed_wires'), -1)
+    ok = d == want
+    ck.ob('R02.8', 'routable.boundary', ok, 'is_routable(w) <=> w.column < num_routed_wires' if ok else
+          'Wire::is_routable is true exactly when %s < 0, not when column - num_routed_wires < 0: a wire in a column without a sigma polynomial is treated as routable (its copy constraints are recorded but never enforced), '
+          'or a routed column is treated as advice' % poly.show(d), loc)
